@@ -319,6 +319,12 @@ def rule_names(ctx, repo, it):
                     # error classes constructed with the opcode: MissingOpArgumentsError(opcode, ...) looks the name up too
                     if isinstance(sub, ast.Call) and norm(sub.func) in ('err_raiser', 'check_args'):
                         pass
+    # a lookup keyed by anything but the opcode of this iteration (a position, a counter) finds a name only by accident
+    for sub in ast.walk(it.fi.node):
+        if isinstance(sub, ast.Subscript) and norm(sub.value) == 'OPCODE_NAMES' and isinstance(sub.ctx, ast.Load) and norm(sub.slice) != it.v_op \
+                and isinstance(sub.slice, ast.Name) and sub.slice.id not in ('opcode',):
+            r.violated('loop-lookup:key:%s' % norm(sub.slice), common.site_of(it.fi, sub), 'OPCODE_NAMES is indexed by `%s`, not by the opcode `%s`: KeyError for every value that is not an opcode number'
+                       % (norm(sub.slice), it.v_op), sure=True)
     for line, vs in sorted(bad.items()):
         r.violated('loop-lookup:line-group', '%s:%d' % (it.mod.relpath, line), 'OPCODE_NAMES[%s] is evaluated for unnamed opcode(s) %s -> KeyError' % (it.v_op, ['0x%02x' % x for x in sorted(set(vs))[:6]]))
     r.check(not bad, 'loop-lookups', common.site_of(it.fi, it.loop), '%d lookups reached only by named opcodes' % n, 'unnamed opcodes reach a name lookup')
@@ -475,6 +481,9 @@ def rule_const_index(ctx, repo, graph):
         r.undecided('instances', '', 'no constant index found (the confirmed tree has `sig[-1]` in _CheckSig)')
 
 
+STATE_NAMES = ('sop', 'sop_data', 'sop_pc', 'stack', 'scriptIn', 'txTo', 'inIdx', 'flags', 'altstack', 'vfExec', 'pbegincodehash', 'nOpCount')
+
+
 def rule_error_arity(ctx, repo, graph):
     """Every error object built on the verification path is built with arguments its class accepts: `err_raiser(Cls, a, b)`
     constructs `Cls(a, b, **state)`, `raise Cls(a)` constructs Cls(a).  A positional argument the constructor has no
@@ -486,6 +495,14 @@ def rule_error_arity(ctx, repo, graph):
         if f is None or not f.module.relpath.startswith('bitcoin/'):
             continue
         for c in common.iter_calls(f.node):
+            # execution state handed over by keyword: each state keyword carries the value of the same name
+            st_kw = [k for k in c.keywords if k.arg in STATE_NAMES]
+            if len(st_kw) >= 4:
+                for k in st_kw:
+                    v_ = k.value.value if (isinstance(k.value, ast.Subscript) and isinstance(k.value.value, ast.Name)) else k.value
+                    if isinstance(v_, ast.Name) and v_.id != k.arg and v_.id in STATE_NAMES:
+                        r.violated('state:%s=%s@%d' % (k.arg, v_.id, c.lineno), common.site_of(f, c), '`%s=%s`: the error is given the %s where its %s belongs - the captured state no longer '
+                                   'describes the interpreter (its stack sizes, for one, need not respect the limits)' % (k.arg, norm(k.value), v_.id, k.arg), sure=True)
             cls_expr = None
             args = kws = None
             if norm(c.func) == 'err_raiser' and c.args:
@@ -525,6 +542,9 @@ def rule_error_arity(ctx, repo, graph):
             for k_, a_v in enumerate(args):
                 if isinstance(a_v, ast.Name) and k_ < len(pos) and a_v.id in pos and pos[k_] != a_v.id and a_v.id not in ('opcode', 'msg'):
                     problems.append('the value `%s` is bound to parameter `%s` (position %d), not to `%s`' % (a_v.id, pos[k_], k_ + 1, a_v.id))
+            for kw_ in c.keywords:
+                if kw_.arg and isinstance(kw_.value, ast.Name) and kw_.value.id != kw_.arg and kw_.value.id in names and kw_.arg in names:
+                    problems.append('the value `%s` is bound to parameter `%s`' % (kw_.value.id, kw_.arg))
             if problems and all('is bound to parameter' in p_ for p_ in problems):
                 r.violated(key, common.site_of(f, c), '`%s` builds %s with %s: the error carries the wrong execution state' % (norm(c)[:70], v.info.name, '; '.join(problems[:3])), sure=True)
                 continue
